@@ -23,8 +23,15 @@ def make_raw(case):
     if case.get("repeat_met") and ns >= 2:
         ws[-1], wd[-1], us[-1], mol[-1] = ws[0], wd[0], us[0], mol[0]   # repeated met conditions within a series
     met = dict(wind_speed=ws, wind_dir=wd, ustar=us, mol=mol) if ns > 1 else dict(wind_speed=ws[0], wind_dir=wd[0], ustar=us[0], mol=mol[0])
-    if case.get("timestamps"):
+    tk = case.get("timestamps")
+    if tk is True or tk == "ascending":
         met["timestamps"] = ["s%d" % k for k in range(ns)]
+    elif tk == "wrap":          # time-of-day labels crossing midnight: not ascending under string comparison
+        met["timestamps"] = ["%02d:30" % ((22 + k) % 24) for k in range(ns)]
+    elif tk == "descending":
+        met["timestamps"] = ["d%d" % (9 - k) for k in range(ns)]
+    elif tk == "duplicate":     # a repeated label (e.g. the DST fall-back hour)
+        met["timestamps"] = ["2024-10-27T02:30"] * ns
     towers = [dict(name="T%d" % k, lat=50.0 + 1e-4 * (k + 1), lon=11.0 + 2e-4 * (k + 1), z_m=3.0 + 0.7 * k) for k in range(nt)]
     return dict(domain=dict(nx=8, ny=8, xmax=80.0, ymax=80.0, nz=4, modes=[8, 8], halo=20.0, ref_lat=50.0, ref_lon=11.0),
                 towers=towers, met=met, solver=dict(closure="MOST", footprint=case["footprint"], precision="double"),
@@ -140,7 +147,7 @@ def gen_case(rng, k):
     strategy = ["towers", "time", "both"][k % 3] if rng.random() < 0.93 else "bogus"
     return dict(towers=int(rng.integers(1, 4)), steps=int(rng.integers(1, 4)), strategy=strategy, workers=int(rng.integers(1, 6)),
                 parent_threads=int(rng.choice([1, 4])), cache=bool(rng.random() < 0.5), footprint=bool(rng.random() < 0.7),
-                repeat_met=bool(rng.random() < 0.5), timestamps=bool(rng.random() < 0.5), cseed=int(rng.integers(1 << 30)),
+                repeat_met=bool(rng.random() < 0.5), timestamps=str(rng.choice(["none", "ascending", "wrap", "descending", "duplicate"])), cseed=int(rng.integers(1 << 30)),
                 dseed=int(rng.integers(1 << 30)), max_delay=float(rng.choice([0.0, 0.3, 0.6])))
 
 
@@ -168,8 +175,11 @@ def run(rng, tier, deep):
     cases = [gen_case(rng, k) for k in range(budget(tier, deep, 9, 60))]
     cases[0].update(towers=1, steps=1)
     if len(cases) > 2:
-        cases[1].update(towers=3, steps=3, workers=5, strategy="both", max_delay=0.6)
-        cases[2].update(towers=2, steps=3, workers=2, strategy="time", parent_threads=4)
+        cases[1].update(towers=3, steps=3, workers=5, strategy="both", max_delay=0.6, timestamps="wrap")
+        cases[2].update(towers=2, steps=3, workers=3, strategy="time", parent_threads=4, timestamps="wrap", max_delay=0.6)
+    if len(cases) > 4:
+        cases[3].update(towers=2, steps=3, workers=3, strategy="time", timestamps="duplicate", max_delay=0.6, repeat_met=False)
+        cases[4].update(towers=3, steps=2, workers=4, strategy="towers", timestamps="descending", max_delay=0.6)
     with ThreadPoolExecutor(max_workers=4) as ex:
         outs = list(ex.map(run_real, cases))
     for c, o in zip(cases, outs):
@@ -187,6 +197,6 @@ def run(rng, tier, deep):
             st["oracle_failures"].append(f)
     return finish(st, "(towers x steps) in {1..3}x{1..3} incl. 1x1, the three strategies (+ an invalid one), workers 1..5 (more than tasks included), per-task "
                   "delays derived from (seed, tower, step) injected before the pool forks, parent NUM_THREADS 1 and 4 (with a parent-side solve so that workers "
-                  "inherit a non-trivial state), cache on/off, repeated met conditions within a series, string/index timestamps; correspondence: the Lean pool model "
+                  "inherit a non-trivial state), cache on/off, repeated met conditions within a series, index / ascending / midnight-wrapping / descending / duplicate timestamp labels; correspondence: the Lean pool model "
                   "under EVERY completion order of the small task sets; oracle: every slot's (tower, timestamp, params, sha of conc/flx/grid) bit-exact against "
                   "real single runs, key order and time order", deep, 0)
